@@ -103,6 +103,8 @@ type machine struct {
 	nchans     int
 	onces      map[*value]bool
 	mapPerms   int
+	jsonBlobs  map[int]*jnode
+	jsonDecBuf map[*value][]value
 	funcsHit   map[string]bool
 	stubsHit   map[string]bool
 }
